@@ -140,6 +140,8 @@ class Serializable(object):  # pylint: disable=too-few-public-methods
                 )
                 for key, value in Serializable._get_ordered_dict(obj).items()
             ])
+        elif isinstance(obj, (ipaddress.IPv4Network, ipaddress.IPv6Network)):
+            result = result_func(obj)  # not the instance dictionary: it grows whenever a cached property is read
         elif hasattr(obj, '__dict__'):
             result = Serializable._json_traverse(obj.__dict__, result_func)
         elif isinstance(obj, (list, tuple, frozenset, set)):
